@@ -108,10 +108,11 @@ def run(ctx):
     # weight > 0 then weight 0 / negative, resets as the last command on the route, ...: every
     # script of <=2 commands is a case (no view), the split must be that of the LAST configuration
     gens.append(("route weight resets, every script of <=2 commands",
-                 cmd_cfg("GenSpec", ctx.pick(2, 3), 2, "MCWUSmall", "MCWCReset", GEN_ALL, tags="MCTags2")))
+                 cmd_cfg("GenSpec", 2, 2, "MCWUSmall", "MCWCReset", GEN_ALL, tags="MCTags2")))
     if ctx.thorough:
-        gens.append(("route weight, 2 commands", cmd_cfg("GenSpec", 3, 2, "MCWUSmall", "MCWCSmall", GEN)))
-        gens.append(("route weight, 4 targets", cmd_cfg("GenSpec", 4, 1, "MCWUSmall", "MCWCSmall", GEN)))
+        gens.append(("route weight resets, 3 targets", cmd_cfg("GenSpec", 3, 2, "MCWUSmall", "MCWCReset", GEN, tags="MCTags2")))
+        gens.append(("route weight, 2 commands", cmd_cfg("GenSpec", 2, 2, "MCWUSmall", "MCWCSmall", GEN)))
+        gens.append(("route weight, 4 targets", cmd_cfg("GenSpec", 4, 1, "MCWUSmall", "MCWCSmall", GEN, tags="MCTags2")))
     for name, text in gens:
         g = ctx.tlc("Weights_MC", cfg_text=text, workers=WORKERS, json_sink=cases, timeout=ctx.pick(300, 1500))
         ctx.log("Gen %s: %d transitions, %d states, %.0fs" % (name, g.generated, g.distinct, g.wall))
@@ -122,7 +123,7 @@ def run(ctx):
     # 4. replay into the real code
     # quick tier: weights and ring shares for every vector, the pick cycles for every
     # vector of <=3 targets added with fixed weights and a seed-selected slice of the others
-    r = run_harness(ctx, cases, "C04 replay", pick_every=ctx.pick(20, 5))
+    r = run_harness(ctx, cases, "C04 replay", pick_every=ctx.pick(20, 10))
     if r is None:
         return
     s = r.summary
